@@ -913,4 +913,157 @@ theorem chunkSeriesIt_good (qmint qmaxt : Int) (c : List Sample) (cs : List (Lis
   obtain ⟨d, hd, hxd⟩ := mem_unionFrom hx
   exact hin d hd x hxd
 
+/-! ### boundedSeriesIterator read with `Next` only, any range -/
+
+section bnddrain
+variable {σ : Type} {o : Ops σ} {V : σ → Prop} {abs : σ → List Sample}
+
+theorem bndOps_next_some (mint maxt : Int) (s : σ) (st : Bool) {r : σ × Bool}
+    (hb : bNext o mint maxt s = some r) :
+    (bndOps o mint maxt).next { inner := s, bad := false, stopped := st } =
+      ({ inner := r.1, bad := false, stopped := st }, r.2) := by
+  simp [bndOps, hb]
+
+theorem bndOps_bad_eq (mint maxt : Int) (b : Bnd σ) :
+    (bndOps o mint maxt).bad b = (b.bad || o.bad b.inner) := rfl
+
+theorem bndOps_atS_eq (mint maxt : Int) (b : Bnd σ) : (bndOps o mint maxt).atS b = o.atS b.inner := rfl
+
+/-- the `Next` loop of a bounded iterator from a positioned inner state whose later samples are
+    all at or after `mint`: the samples up to `maxt` -/
+theorem bnd_go_spec (h : ListLike o V abs) (mint maxt : Int) :
+    ∀ (n : Nat) (s : σ) (st : Bool) (c : Sample) (rest : List Sample), V s → abs s = c :: rest →
+      (∀ y ∈ rest, mint ≤ y.t) → rest.length + 1 ≤ n →
+      drainChecked.go (bndOps o mint maxt) n { inner := s, bad := false, stopped := st } =
+        some (takeLe maxt rest) := by
+  intro n
+  induction n with
+  | zero => intro s st c rest _ _ _ hn; omega
+  | succ n ih =>
+    intro s st c rest hV habs hge hn
+    have hne : abs s ≠ [] := by rw [habs]; simp
+    have hV' := h.nextV _ hV hne
+    have habs' : abs (o.next s).1 = rest := by rw [h.nextAbs _ hV hne, habs]; rfl
+    have hok : (o.next s).2 = !rest.isEmpty := by rw [h.nextOk _ hV hne, habs]; rfl
+    unfold drainChecked.go
+    cases hr : rest with
+    | nil =>
+      rw [hr] at hok
+      have hb : bNext o mint maxt s = some ((o.next s).1, false) := by
+        unfold bNext; simp [hok]
+      rw [bndOps_next_some mint maxt s st hb]
+      simp [bndOps_bad_eq, h.bad _ hV', takeLe]
+    | cons x tl =>
+      rw [hr] at hok habs'
+      have hne' : abs (o.next s).1 ≠ [] := by rw [habs']; simp
+      have hat : o.atT (o.next s).1 = some x.t := by rw [h.atT _ hV' hne', habs']; rfl
+      have hxm : ¬ x.t < mint := by have := hge x (by rw [hr]; simp); omega
+      have hb : bNext o mint maxt s = some ((o.next s).1, decide (x.t ≤ maxt)) := by
+        unfold bNext; simp [hok, hat, hxm]
+      rw [bndOps_next_some mint maxt s st hb]
+      simp only [bndOps_bad_eq, h.bad _ hV', Bool.or_self, Bool.false_eq_true, if_false, bndOps_atS_eq]
+      by_cases hle : x.t ≤ maxt
+      · simp only [hle, decide_true, if_true]
+        rw [h.atS _ hV' hne', habs']
+        simp only [List.head?_cons]
+        rw [ih (o.next s).1 st x tl hV' habs' (fun y hy => hge y (by rw [hr]; simp [hy]))
+          (by rw [hr] at hn; simp at hn; omega)]
+        simp [takeLe, hle]
+      · simp [hle, takeLe]
+
+/-- **A bounded iterator read with `Next`**: the samples of the wrapped (time-sorted) iterator
+    inside `[mint, maxt]`, for any range. -/
+theorem bnd_drain (h : ListLike o V abs) (mint maxt : Int) {s0 : σ} {L : List Sample}
+    (hi : InitNext o V abs s0 L) (hs : SSorted L) :
+    drainChecked { σ := Bnd σ, ops := bndOps o mint maxt,
+                   st := { inner := s0, bad := false, stopped := false } } =
+      some (takeLe maxt (dropLt mint L)) := by
+  unfold drainChecked
+  show drainChecked.go (bndOps o mint maxt) ((o.fuel s0 + 1) + 1) _ = _
+  rw [drainChecked.go]
+  have hfuel := hi.fuel
+  -- the tail of the loop, once the inner iterator stands on the head of D = dropLt mint L
+  have cont : ∀ (s : σ) (d : Sample) (rest : List Sample), V s → abs s = d :: rest →
+      SSorted (d :: rest) → mint ≤ d.t → (d :: rest).length ≤ L.length →
+      drainChecked.go (bndOps o mint maxt) (o.fuel s0 + 1) { inner := s, bad := false, stopped := false } =
+        some (takeLe maxt rest) := by
+    intro s d rest hV habs hsd hmd hlen
+    apply bnd_go_spec h mint maxt _ s false d rest hV habs
+    · intro y hy
+      have := (List.pairwise_cons.mp hsd).1 y hy; omega
+    · simp only [List.length_cons] at hlen; omega
+  cases hL : L with
+  | nil =>
+    have hb : bNext o mint maxt s0 = some ((o.next s0).1, false) := by
+      unfold bNext; simp [hi.nextOk, hL]
+    simp [bndOps, hb, h.bad _ hi.nextV, takeLe]
+  | cons y rest =>
+    have hne : abs (o.next s0).1 ≠ [] := by rw [hi.nextAbs, hL]; simp
+    have hat : o.atT (o.next s0).1 = some y.t := by rw [h.atT _ hi.nextV hne, hi.nextAbs, hL]; rfl
+    have hok : (o.next s0).2 = true := by rw [hi.nextOk, hL]; rfl
+    have hsL : SSorted (y :: rest) := by rw [← hL]; exact hs
+    by_cases hym : y.t < mint
+    · -- the first sample is before the range: Seek(mint)
+      by_cases hmm : mint > maxt
+      · have hb : bNext o mint maxt s0 = some ((o.next s0).1, false) := by
+          unfold bNext bSeek; simp [hok, hat, hym, hmm]
+        have hemp : takeLe maxt (dropLt mint (y :: rest)) = [] := by
+          cases hD : dropLt mint (y :: rest) with
+          | nil => rfl
+          | cons d r =>
+            have := head_dropLt_ge (t := mint) (l := y :: rest) (x := d) (by rw [hD]; rfl)
+            have hnd : ¬ d.t ≤ maxt := by omega
+            simp [takeLe, hnd]
+        simp [bndOps, hb, h.bad _ hi.nextV, hemp]
+      · have hV2 := h.seekV _ mint hi.nextV hne
+        have habs2 : abs (o.seek mint (o.next s0).1).1 = dropLt mint (y :: rest) := by
+          rw [h.seekAbs _ mint hi.nextV hne, hi.nextAbs, hL]
+        have hok2 : (o.seek mint (o.next s0).1).2 = !(dropLt mint (y :: rest)).isEmpty := by
+          rw [h.seekOk _ mint hi.nextV hne, hi.nextAbs, hL]
+        cases hD : dropLt mint (y :: rest) with
+        | nil =>
+          rw [hD] at hok2
+          have hb : bNext o mint maxt s0 = some ((o.seek mint (o.next s0).1).1, false) := by
+            unfold bNext bSeek; simp [hok, hat, hym, hmm, hok2]
+          simp [bndOps, hb, h.bad _ hV2, takeLe]
+        | cons d r =>
+          rw [hD] at hok2 habs2
+          have hne2 : abs (o.seek mint (o.next s0).1).1 ≠ [] := by rw [habs2]; simp
+          have hat2 : o.atT (o.seek mint (o.next s0).1).1 = some d.t := by
+            rw [h.atT _ hV2 hne2, habs2]; rfl
+          have hb : bNext o mint maxt s0 =
+              some ((o.seek mint (o.next s0).1).1, decide (d.t ≤ maxt)) := by
+            unfold bNext bSeek; simp [hok, hat, hym, hmm, hok2, hat2]
+          have hsd : SSorted (d :: r) := by rw [← hD]; exact ssorted_dropLt mint hsL
+          have hmd : mint ≤ d.t := head_dropLt_ge (by rw [hD]; rfl)
+          have hlen : (d :: r).length ≤ L.length := by
+            rw [← hD, hL]; exact dropLt_length_le _ _
+          by_cases hle : d.t ≤ maxt
+          · simp only [bndOps, hb, hle, decide_true, h.bad _ hV2, Bool.or_self, Bool.false_eq_true,
+              if_false, if_true]
+            rw [h.atS _ hV2 hne2, habs2]
+            simp only [List.head?_cons]
+            have := cont _ d r hV2 habs2 hsd hmd hlen
+            simp only [bndOps] at this
+            rw [this]
+            simp [takeLe, hle]
+          · simp [bndOps, hb, hle, h.bad _ hV2, takeLe]
+    · -- the first sample is already in or after the range
+      have hD : dropLt mint (y :: rest) = y :: rest := dropLt_cons_ge (by omega)
+      have hb : bNext o mint maxt s0 = some ((o.next s0).1, decide (y.t ≤ maxt)) := by
+        unfold bNext; simp [hok, hat, hym]
+      rw [hD]
+      by_cases hle : y.t ≤ maxt
+      · simp only [bndOps, hb, hle, decide_true, h.bad _ hi.nextV, Bool.or_self, Bool.false_eq_true,
+          if_false, if_true]
+        rw [h.atS _ hi.nextV hne, hi.nextAbs, hL]
+        simp only [List.head?_cons]
+        have := cont _ y rest hi.nextV (by rw [hi.nextAbs, hL]) hsL (by omega) (by rw [hL]; exact Nat.le_refl _)
+        simp only [bndOps] at this
+        rw [this]
+        simp [takeLe, hle]
+      · simp [bndOps, hb, hle, h.bad _ hi.nextV, takeLe]
+
+end bnddrain
+
 end Thanos.Dedup
